@@ -15,8 +15,8 @@ func init() {
 
 var ab = []string{"a", "b"}
 
-var errKindCycle = []int{scen.ESentinel, scen.EWrapped, scen.ECustom, scen.EUncomparable, scen.ENestedRun, scen.EJoined, scen.ECustom, scen.ETemporary, scen.EWrapped, scen.ECtxLike}
-var errKindName = map[int]string{scen.ESentinel: "sentinel", scen.EWrapped: "wrapped", scen.ECustom: "custom", scen.EUncomparable: "uncomparable-struct", scen.EJoined: "joined", scen.ETemporary: "temporary", scen.ECtxLike: "wraps-a-context-error", scen.ENestedRun: "wraps-a-sub-run-error"}
+var errKindCycle = []int{scen.ESentinel, scen.EWrapped, scen.ECustom, scen.EUncomparable, scen.ENestedRun, scen.EJoined, scen.ETypedNil, scen.ETemporary, scen.EWrapped, scen.ECtxLike, scen.ENilSliceErr}
+var errKindName = map[int]string{scen.ESentinel: "sentinel", scen.EWrapped: "wrapped", scen.ECustom: "custom", scen.EUncomparable: "uncomparable-struct", scen.EJoined: "joined", scen.ETemporary: "temporary", scen.ECtxLike: "wraps-a-context-error", scen.ENestedRun: "wraps-a-sub-run-error", scen.ETypedNil: "typed-nil-pointer", scen.ENilSliceErr: "nil-slice-error"}
 
 // tableScenario builds the scenario of one point of the exhaustive space:
 // nn nodes, 2 actions, target of every (node, action) ∈ {unconnected, nil, each node}, per-node scripts.
